@@ -272,6 +272,13 @@ Section RunThm.
       + intros Hside. rewrite alone_spec, (file_spec_fresh cf ts ps o Hside), <- Hres. destruct res; reflexivity.
   Qed.
 
+  Lemma dry_types_ok ts ins order : forall memo, memo_ok ts memo -> memo_ok ts (dry_types U bases cname fuel ts ins memo order).
+  Proof.
+    induction order as [|k order IH]; intros memo Hm; cbn [dry_types]; [exact Hm|].
+    destruct (resolve_in U ins k) as [o|]; [|apply IH, Hm].
+    apply IH. exact (proj2 (select_transparent ts memo (obj_cls o) Hm)).
+  Qed.
+
   Notation op_step := (op_step U bases cname fuel render cfun maxsize true lel_shared).
   Notation exec := (exec U bases cname fuel render cfun maxsize true lel_shared).
 
@@ -287,15 +294,18 @@ Section RunThm.
 
   Lemma op_step_ok s o : pstate_ok s -> pstate_ok (fst (op_step s o)) /\ Forall entry_ok (snd (op_step s o)).
   Proof.
-    intros [Hc Hg]. destruct o as [cf ts pps ins|gid order|]; cbn [GenState.op_step fst snd].
+    intros [Hc Hg]. destruct o as [cf ts pps ins|gid args dry order|]; cbn [GenState.op_step fst snd].
     - split; [|constructor]. split; cbn [p_cache p_gens]; [exact Hc|].
       apply Forall_app. split; [exact Hg|]. constructor; [|constructor]. apply LookupThm.consistent_nil.
     - destruct (nth_error (p_gens s) gid) as [g|] eqn:En; [|split; [split; assumption|constructor]].
       assert (Hmg : memo_ok (go_tset g) (go_memo g)).
       { rewrite Forall_forall in Hg. apply Hg. eapply nth_error_In. exact En. }
-      pose proof (run_types_ok (go_cfg g) (go_tset g) (go_inputs g) order (go_memo g) (p_uniq s) (p_cache s) (go_pps g) Hc Hmg) as Hr.
+      destruct dry.
+      { cbn [fst snd]. split; [|constructor]. split; cbn [p_cache p_gens]; [exact Hc|].
+        apply set_nth_Forall; [exact Hg|]. cbn [go_tset go_memo]. apply dry_types_ok, Hmg. }
+      pose proof (run_types_ok (ecfg (go_cfg g) args) (go_tset g) (go_inputs g) order (go_memo g) (p_uniq s) (p_cache s) (go_pps g) Hc Hmg) as Hr.
       cbv zeta in Hr.
-      destruct (run_types (go_cfg g) (go_tset g) (go_inputs g) (go_memo g) (p_uniq s) (p_cache s) (go_pps g) order)
+      destruct (run_types (ecfg (go_cfg g) args) (go_tset g) (go_inputs g) (go_memo g) (p_uniq s) (p_cache s) (go_pps g) order)
         as [[[[m1 u1] c1] ps1] es]. cbn [fst snd] in *. destruct Hr as (H1 & H2 & H3).
       split; [|exact H3]. split; cbn [p_cache p_gens]; [exact H2|].
       apply set_nth_Forall; [exact Hg|]. cbn [go_tset go_memo]. exact H1.
@@ -400,10 +410,10 @@ Definition w_ts : list (str * str) := [([83], [83; 46; 106; 50])].      (* S -> 
 Definition w_U : universe :=
   [([65], {| d_cls := 1; d_body := []; d_deps := [] |}); ([66], {| d_cls := 1; d_body := []; d_deps := [] |})].
 Definition w_tab : list (ckey * list item) :=
-  [((1, [65]), [IText [97; 10; 10]]); ((1, [66]), [IText [10; 98]])].
+  [((16, [65]), [IText [97; 10; 10]]); ((16, [66]), [IText [10; 98]])].     (* 16 = ecfg 1 0 *)
 Definition w_pps : list pp := [PLimit (LimitEmptyLines_init 1)].
-Definition w_hist_whole : list op := [ONew 1 w_ts w_pps [[65]; [66]]; ORun 0 [[65]; [66]]].
-Definition w_hist_subset : list op := [ONew 1 w_ts w_pps [[66]]; ORun 0 [[66]]].
+Definition w_hist_whole : list op := [ONew 1 w_ts w_pps [[65]; [66]]; ORun 0 0 false [[65]; [66]]].
+Definition w_hist_subset : list op := [ONew 1 w_ts w_pps [[66]]; ORun 0 0 false [[66]]].
 
 Lemma w_forest_ok :
   (forall c, (length (ct_bases w_ct c) <= 1)%nat) /\
